@@ -545,7 +545,7 @@ func main() {
 	if thorough {
 		g.opSequences(4, abcd, "alt4", false)
 	} else {
-		for i := 0; i < 6000; i++ {
+		for i := 0; i < 3000; i++ {
 			n := 4 + rng.Intn(4)
 			var sb strings.Builder
 			sb.WriteString("a")
@@ -580,7 +580,7 @@ func main() {
 			}
 		}
 	}
-	nU := 4000
+	nU := 2500
 	if thorough {
 		nU = 60000
 	}
@@ -651,7 +651,7 @@ func main() {
 			}
 		}
 	}
-	nT := 20000
+	nT := 8000
 	if thorough {
 		nT = 300000
 	}
@@ -690,14 +690,17 @@ func main() {
 		}
 		for _, o2 := range symOps {
 			for _, gp := range gapsets {
-				for _, gp2 := range gapsets {
+				for gi2, gp2 := range gapsets {
+					if !thorough && (gi2 == 2) != (gp[0] == "") {
+						continue
+					}
 					g.spacingCase([]string{"a", o1, "b", o2, "1"}, []string{gp[0], gp[1], gp2[0], gp2[1]}, "spacing2")
 					g.spacingCase([]string{"2", o1, "1", o2, "c"}, []string{gp[0], gp[1], gp2[0], gp2[1]}, "spacing2")
 				}
 			}
 		}
 	}
-	nP := 3000
+	nP := 2000
 	if thorough {
 		nP = 50000
 	}
